@@ -63,6 +63,9 @@ Forms == <<
  [name |-> "const-bool", toks |-> <<Tk(".const","start",TRUE,""), Tk("nb","ws",FALSE," "), Tk("=","ws",FALSE," "), Tk("true","ws",TRUE," ")>>],
  (* the block symbols as operands, with a statement behind them (which may share their line) *)
  [name |-> "blk-back",   toks |-> <<Tk("{","start",FALSE,""), Tk("dex","start",TRUE," "), Tk("bne","start",TRUE,"\n"), Tk("-","ws",FALSE," "), Tk("rts","start",TRUE,"\n"), Tk("}","mws",FALSE,"\n")>>],
+ (* a statement with the same error in the entry file and in an imported file (whose text puts it at the same offset as the
+    canonical spelling does here): both are reported, wherever the layout moves one of them *)
+ [name |-> "err-both",   toks |-> <<Tk(".byte","start",TRUE,""), Tk(".import","start",TRUE,"\n"), Tk("*","ws",FALSE," "), Tk("as","ws",TRUE," "), Tk("ie","ws",FALSE," "), Tk("from","mws",TRUE," "), Tk("\"inc2.asm\"","ws",FALSE," ")>>],
  [name |-> "blk-fwd",    toks |-> <<Tk("{","start",FALSE,""), Tk("beq","start",TRUE," "), Tk("+","ws",FALSE," "), Tk("inx","start",TRUE,"\n"), Tk("}","mws",FALSE,"\n")>>]
 >>
 
